@@ -33,7 +33,7 @@ type sctx struct {
 	flavors      []string // names defined so far (their defining forms are in defs)
 	defs         map[string][]string
 	funs         []string
-	exports      bool   // packages may export names (def mode)
+	session      bool   // the items are part of a session (def mode otherwise)
 	needInitform bool   // the first slot of the next class has an initform
 	plain        bool   // no quoted-data or computed defaults (the item's instances are load-formed)
 	redefining   bool   // the item being built replaces an earlier definition of the same name
@@ -134,8 +134,8 @@ func docOpt(r *rand.Rand) string {
 // doc yields an optional short documentation string, or a long one that
 // wraps when this item is to carry the doc-wraps feature.
 func (s *sctx) doc() string {
-	if s.want("doc-wraps") {
-		s.placed = "doc-wraps"
+	if s.r.IntN(10) == 0 {
+		// long enough to be re-flowed at a narrow margin
 		return longDoc(s.r)
 	}
 	return docOpt(s.r)
@@ -145,9 +145,7 @@ func (s *sctx) doc() string {
 // carry: it is what genValue calls clean.
 func cleanVarValue(r *rand.Rand) (string, string) {
 	kind := fw.Pick(r, []string{"number", "number", "string", "string", "symbol", "character", "list", "list", "vector", "array", "hash-table"})
-	// a snapshot writes vectors and arrays as literals: only their contents
-	// can come back (adjustability and element type are in the avoid set)
-	return kind, genValue(r, kind, "plain-attrs")
+	return kind, genValue(r, kind, "")
 }
 
 func (s *sctx) varItem() Item {
@@ -169,19 +167,6 @@ func (s *sctx) varItem() Item {
 	case r.IntN(12) == 0:
 		// a symbol as a value (snapshot has to quote it)
 		val, kind = "'"+fw.Pick(r, symNames), "symbol"
-	case s.want("var-fill-pointer"):
-		val, kind = genValue(r, "vector", "fill-pointer"), "vector"
-		it.Feat = "var-fill-pointer"
-	case s.want("var-symbol-in-list"):
-		val, kind = genValue(r, "list", "symbol-in-list"), "list"
-		it.Feat = "var-symbol-in-list"
-	case s.want("var-array-attrs"):
-		if r.IntN(2) == 0 {
-			val, kind = fmt.Sprintf("(make-array 3 :initial-contents '(1 %d 3))", r.IntN(9)), "vector"
-		} else {
-			val, kind = fmt.Sprintf("(make-array '(2 2) :initial-contents '((1 2) (3 %d)) :adjustable t)", r.IntN(9)), "array"
-		}
-		it.Feat = "var-array-attrs"
 	case s.want("var-long-float"):
 		val, kind = genValue(r, "number", "long-float-digits"), "number"
 		it.Feat = "var-long-float"
@@ -246,14 +231,8 @@ func (s *sctx) constItem() Item {
 func (s *sctx) funItem() Item {
 	r := s.r
 	name := s.name("fn-")
-	var o codeOpts
+	o := codeOpts{backquote: r.IntN(5) == 0, longDoc: r.IntN(10) == 0}
 	feat := ""
-	switch {
-	case s.want("fun-backquote"):
-		o.backquote, feat = true, "fun-backquote"
-	case s.want("fun-doc-wraps"):
-		o.longDoc, feat = true, "fun-doc-wraps"
-	}
 	fd, _ := genFunction(r, name, 2+r.IntN(2), o)
 	it := Item{Kind: "fun", Name: name, Feat: feat, Forms: []string{fd.Src}}
 	for _, p := range fd.Probes {
@@ -267,9 +246,8 @@ func (s *sctx) funItem() Item {
 		it.Feat = "fun-closure"
 		it.Forms = []string{fmt.Sprintf("(let ((counter %d)) (defun %s (p0) (setq counter (+ counter p0)) counter))", r.IntN(9), name)}
 		it.Probes = []string{fmt.Sprintf("(list (%s 1) (%s 2))", name, name)}
-	case s.want("undefined-ref"):
+	case r.IntN(15) == 0:
 		// a function whose callee is not defined (yet) when the snapshot is taken
-		it.Feat = "undefined-ref"
 		it.Forms = []string{fmt.Sprintf("(defun %s (p0) (%s p0))", name, s.name("not-yet-"))}
 		it.Probes = []string{fmt.Sprintf("(documentation '%s 'function)", name)}
 	case r.IntN(10) == 0:
@@ -287,11 +265,8 @@ func (s *sctx) funItem() Item {
 
 func (s *sctx) macroItem() Item {
 	name := s.name("mac-")
-	var o codeOpts
+	o := codeOpts{backquote: s.r.IntN(2) == 0, longDoc: s.r.IntN(10) == 0}
 	feat := ""
-	if s.want("macro-backquote") {
-		o.backquote, feat = true, "macro-backquote"
-	}
 	fd := genMacro(s.r, name, o)
 	it := Item{Kind: "macro", Name: name, Feat: feat, Forms: []string{fd.Src}}
 	for _, p := range fd.Probes {
@@ -372,6 +347,7 @@ type flInfo struct {
 func (s *sctx) flavorItem(withInstance bool, role string) Item {
 	r := s.r
 	redefining := s.redefining
+	listDefault := false
 	name := s.name("fl-")
 	it := Item{Kind: "flavor", Name: name}
 	if !s.final {
@@ -383,6 +359,9 @@ func (s *sctx) flavorItem(withInstance bool, role string) Item {
 	dirtyParent := false
 	if p := s.fl[s.last]; p != nil && role != "hidden-parent" {
 		switch {
+		case s.want("flavor-list-default-parent"):
+			it.Feat = "flavor-list-default-parent"
+			parent = p
 		case !p.capable && s.want("flavor-parent"):
 			it.Feat = "flavor-parent"
 			dirtyParent = true
@@ -414,7 +393,7 @@ func (s *sctx) flavorItem(withInstance bool, role string) Item {
 	var vars []fvar // declared by this flavor
 	if parent != nil {
 		for _, pv := range parent.vars {
-			if r.IntN(3) != 0 {
+			if r.IntN(3) != 0 || dirtyParent {
 				continue
 			}
 			// re-declare with the default of some ancestor or a new one
@@ -429,13 +408,20 @@ func (s *sctx) flavorItem(withInstance bool, role string) Item {
 	for i := 0; i < nv; i++ {
 		vars = append(vars, fvar{name: fmt.Sprintf("%s%d", fw.Pick(r, []string{"size", "w", "label", "count", "val"}), s.n*10+i), def: genDef()})
 	}
+	if dirtyParent {
+		// re-declare the parent's hidden variable with the parent's default:
+		// the load form takes it for inherited and drops it with its getter
+		vars = append([]fvar{{name: parent.vars[0].name, def: parent.vars[0].def}}, vars...)
+	}
 	if role == "hidden-parent" {
 		vars = []fvar{{name: fmt.Sprintf("hid%d", s.n), def: "7"}, {name: fmt.Sprintf("shown%d", s.n), def: "8"}}
 	}
 	switch {
-	case s.want("flavor-default-unquoted"):
-		it.Feat = "flavor-default-unquoted"
+	case role == "list-default-parent":
+		vars[len(vars)-1].def = "'(1 2)"
+	case r.IntN(8) == 0 && role == "":
 		vars[len(vars)-1].def = fw.Pick(r, []string{"'(1 2)", "'sym", "'(a b)"})
+		listDefault = vars[len(vars)-1].def != "'sym"
 	case r.IntN(8) == 0 && !s.plain && role == "":
 		vars[len(vars)-1].def = "(+ 1 2)"
 	}
@@ -510,7 +496,7 @@ func (s *sctx) flavorItem(withInstance bool, role string) Item {
 		// all of its own variables, by name: the load form abbreviates this
 		// to the bare option, which on reload covers the inherited ones too
 		opts = append(opts, fmt.Sprintf("(:gettable-instance-variables %s)", names(vars)))
-	case role == "capable" || (role == "" && r.IntN(2) == 0):
+	case role == "capable" || role == "list-default-parent" || (role == "" && r.IntN(2) == 0):
 		info.capable = true
 		opts = append(opts, ":gettable-instance-variables", ":settable-instance-variables", ":inittable-instance-variables")
 		settable = vars
@@ -600,10 +586,10 @@ func (s *sctx) flavorItem(withInstance bool, role string) Item {
 		it.Info = x
 	}
 	it.Probes = append(it.Probes, fmt.Sprintf("(with-output-to-string (s) (describe-flavor '%s s))", name))
-	if s.want("flavor-method") {
+	if s.session && r.IntN(3) == 0 && role != "hidden-parent" {
+		// (a flavor's own load form does not hold its methods, a snapshot does)
 		// a primary method with documentation and any of a :before daemon, an
 		// :after daemon and a whopper; the daemons leave their mark in a variable
-		it.Feat = "flavor-method"
 		msg := ":" + fw.Pick(r, []string{"total", "grow", "frob"})
 		g := newCG(r)
 		g.ints = []string{"p0"}
@@ -647,11 +633,16 @@ func (s *sctx) flavorItem(withInstance bool, role string) Item {
 				it.Forms = append(it.Forms, fmt.Sprintf("(setf (slot-value %s '%s) %s)", iv, v.name, val))
 			}
 		}
+		if r.IntN(6) == 0 {
+			// a message the instance does not handle (the error is not to leave a trace in the instance)
+			it.Forms = append(it.Forms, fmt.Sprintf("(ignore-errors (send %s :no-such-message 1))", iv))
+		}
 		it.Probes = append(it.Probes, fmt.Sprintf("(list %s)", strings.ReplaceAll(strings.Join(gets, " "), "slot-value i ", "slot-value "+iv+" ")))
 	}
-	if it.Feat != "" {
+	if it.Feat != "" || listDefault {
 		// a flavor carrying an avoid-set construct gets no children: their
-		// failures would be the construct's
+		// failures would be the construct's (a list default in a parent is
+		// one: the child's load form compares defaults with ==)
 		info.capable = false
 	}
 	s.flavors = append(s.flavors, name)
@@ -1068,9 +1059,8 @@ func (s *sctx) packageItem(content string) Item {
 	name := s.name("pk-")
 	it := Item{Kind: "package", Name: name, Info: name}
 	use := `(:use "cl"`
-	if 0 < len(s.pkgs) && (s.exports || content == "package-uses") {
-		// a use graph among the user packages (in sessions in the avoid set:
-		// snapshot writes the packages by name, not the used ones first)
+	if 0 < len(s.pkgs) && r.IntN(2) == 0 {
+		// a use graph among the user packages
 		r.Shuffle(len(s.pkgs), func(i, j int) { s.pkgs[i], s.pkgs[j] = s.pkgs[j], s.pkgs[i] })
 		for _, u := range s.pkgs[:1+r.IntN(min(2, len(s.pkgs)))] {
 			use += " " + litString(u)
@@ -1087,10 +1077,7 @@ func (s *sctx) packageItem(content string) Item {
 	}
 	vname := "*" + name + "-var*"
 	fname := name + "-fun"
-	// exporting a name makes an (unbound) variable of it, which a snapshot
-	// writes as a defvar in the user package: in sessions that is in the
-	// avoid set (package-export), like any variable of a user package
-	if (s.exports && r.IntN(2) == 0) || content == "package-export" {
+	if r.IntN(2) == 0 {
 		opts = append(opts, fmt.Sprintf("(:export %s %s)", litString(vname), litString(fname)))
 	}
 	if doc := docOpt(r); doc != "" {
@@ -1134,7 +1121,7 @@ func (s *sctx) packageItem(content string) Item {
 var defKinds = []string{"package", "flavor", "flavor", "flavor-instance", "class", "class", "class-instance", "generic", "generic"}
 
 var defFeats = map[string][]string{
-	"flavor":         {"flavor-default-unquoted", "flavor-parent"},
+	"flavor":         {"flavor-parent", "flavor-list-default-parent"},
 	"class":          {"class-accessor"},
 	"class-instance": {"instance-slot-unbound"},
 }
@@ -1153,12 +1140,13 @@ func buildDefCase(r *rand.Rand, kind, feat string) Case {
 	var it Item
 	switch kind {
 	case "package":
-		s.exports = true
 		it = s.packageItem("")
 	case "flavor":
 		s.feat = ""
 		if feat == "flavor-parent" {
 			_ = s.flavorItem(false, "hidden-parent")
+		} else if feat == "flavor-list-default-parent" {
+			_ = s.flavorItem(false, "list-default-parent")
 		} else {
 			// up to two ancestors
 			for k, n := 0, r.IntN(3); k < n; k++ {
@@ -1189,9 +1177,7 @@ func buildDefCase(r *rand.Rand, kind, feat string) Case {
 }
 
 var sessionFeats = []string{
-	"class", "flavor-method", "flavor-parent", "multi-flavor", "undefined-ref", "send-error-before-snapshot",
-	"var-fill-pointer", "var-array-attrs", "var-long-float", "flavor-default-unquoted",
-	"package-var", "package-fun", "package-export", "package-uses", "var-closure", "fun-closure", "fun-backquote", "macro-backquote", "fun-doc-wraps", "doc-wraps",
+	"class", "flavor-parent", "flavor-list-default-parent", "var-long-float", "package-var", "package-fun", "var-closure", "fun-closure",
 }
 
 func genSessionCase(r *rand.Rand) Case {
@@ -1204,6 +1190,7 @@ func genSessionCase(r *rand.Rand) Case {
 
 func buildSessionCase(r *rand.Rand, feat string, n int) Case {
 	s := newSctx(r, feat)
+	s.session = true
 	c := Case{Mode: "session", Kind: "session", Feat: feat, Margins: []int{pickMargin(r)}}
 	for len(c.Items) < n {
 		var it Item
@@ -1219,13 +1206,12 @@ func buildSessionCase(r *rand.Rand, feat string, n int) Case {
 		case k < 13:
 			it = s.redefined(s.times(), s.macroItem)
 		case k < 15:
-			// the order in which a snapshot lists unrelated flavors is not
-			// stable: a session holds one inheritance chain at most
-			if feat == "multi-flavor" || feat == "flavor-parent" {
+			if feat == "flavor-parent" || feat == "flavor-list-default-parent" {
 				continue
 			}
-			if p := s.fl[s.last]; p != nil && (!p.capable || 3 <= p.depth) {
-				continue
+			if p := s.fl[s.last]; p != nil && (!p.capable || 3 <= p.depth || r.IntN(3) == 0) {
+				// an unrelated flavor starts a chain of its own
+				s.last = ""
 			}
 			wi := r.IntN(3) == 0
 			it = s.redefined(s.times(), func() Item { return s.flavorItem(wi, "") })
@@ -1235,15 +1221,6 @@ func buildSessionCase(r *rand.Rand, feat string, n int) Case {
 			it = s.packageItem("")
 		}
 		c.Items = append(c.Items, it)
-	}
-	if feat == "multi-flavor" {
-		for s.nflavor < 4 {
-			s.last = "" // unrelated flavors
-			it := s.flavorItem(false, "")
-			it.Feat = feat
-			c.Items = append(c.Items, it)
-		}
-		s.used = true
 	}
 	// place the feature if the random walk did not
 	for tries := 0; feat != "" && !s.used && tries < 3; tries++ {
@@ -1269,40 +1246,14 @@ func buildSessionCase(r *rand.Rand, feat string, n int) Case {
 				}
 				it.Probes = append(it.Probes, "(list "+strings.Join(gets, " ")+")")
 			}
-		case feat == "send-error-before-snapshot":
-			s.used = true
-			s.last = ""
-			it = s.flavorItem(true, "")
-			it.Feat = feat
-			// the instance variable is the last form: send it a message it does not handle
-			iv := it.Forms[len(it.Forms)-1]
-			iv = iv[len("(defvar ") : strings.IndexByte(iv[8:], ' ')+8]
-			it.Forms = append(it.Forms, fmt.Sprintf("(ignore-errors (send %s :no-such-message 1))", iv))
 		case strings.HasPrefix(feat, "package-"):
 			s.used = true
-			if feat == "package-uses" {
-				// the used package sorts after its user
-				s.override = "pk-zz-used"
-				c.Items = append(c.Items, s.packageItem(""))
-				s.override = "pk-aa-user"
-				it = s.packageItem(feat)
-				it.Feat = feat
-				break
-			}
 			it = s.packageItem(feat)
 			it.Feat = feat
-		case feat == "flavor-parent":
+		case feat == "flavor-parent" || feat == "flavor-list-default-parent":
 			s.feat = ""
-			c.Items = append(c.Items, s.flavorItem(false, "hidden-parent"))
+			c.Items = append(c.Items, s.flavorItem(false, map[string]string{"flavor-parent": "hidden-parent", "flavor-list-default-parent": "list-default-parent"}[feat]))
 			s.feat = feat
-			it = s.flavorItem(false, "")
-		case strings.HasPrefix(feat, "flavor-"):
-			if p := s.fl[s.last]; p != nil && !p.capable {
-				// the chain cannot be extended: the construct cannot be placed
-				s.used = true
-				c.Feat = ""
-				continue
-			}
 			it = s.flavorItem(false, "")
 		case strings.HasPrefix(feat, "generic-"):
 			it = s.genericItem()
@@ -1310,15 +1261,10 @@ func buildSessionCase(r *rand.Rand, feat string, n int) Case {
 			it = s.varItem()
 		case strings.HasPrefix(feat, "const-"):
 			it = s.constItem()
-		case strings.HasPrefix(feat, "fun-"), feat == "undefined-ref":
+		case strings.HasPrefix(feat, "fun-"):
 			it = s.funItem()
 		case strings.HasPrefix(feat, "macro-"):
 			it = s.macroItem()
-		case feat == "doc-wraps":
-			it = s.varItem()
-			if it.Feat != "doc-wraps" {
-				continue
-			}
 		}
 		c.Items = append(c.Items, it)
 	}
